@@ -424,12 +424,13 @@ Proof.
             fire c' = f /\ deadline c' = t + pong_wait /\
             (status c' = Open \/ status c' = Closed ReadTimeout (t + pong_wait))).
   { clear Hk. induction n as [|n IH]; intros np c Ho Hfc Hdc Hnp; cbn [pings_only fold_left]; [auto|].
-    unfold step at 2; cbn [fst snd].
+    assert (Hst : step c (EPing, np) = apply_ev (advance c np) EPing np) by reflexivity.
     destruct (status (advance c np)) eqn:Ea.
-    - assert (Hc1 : status (apply_ev (advance c np) EPing np) = Open) by (unfold apply_ev; rewrite Ea; reflexivity).
-      apply IH; [exact Hc1| | |unfold_consts; lia].
-      + rewrite apply_ev_fire, advance_fire; exact Hfc.
-      + unfold apply_ev. rewrite Ea. cbn [deadline]. rewrite advance_deadline. exact Hdc.
+    - apply IH.
+      + rewrite Hst. unfold apply_ev. rewrite Ea. reflexivity.
+      + rewrite step_fire. exact Hfc.
+      + rewrite Hst. unfold apply_ev. rewrite Ea. cbn [deadline]. rewrite advance_deadline. exact Hdc.
+      + unfold_consts; lia.
     - (* closed during advance: by ReadTimeout (expiry is later than the deadline) *)
       assert (Hw : why = ReadTimeout /\ at_ns = t + pong_wait).
       { unfold advance in Ea. rewrite Ho in Ea.
@@ -443,15 +444,15 @@ Proof.
         assert (Hs : step c0 x = c0).
         { unfold step, advance, apply_ev. rewrite Hc0. rewrite Hc0. reflexivity. }
         rewrite Hs. apply IHr; exact Hc0. }
-      assert (Hc1 : status (apply_ev (advance c np) EPing np) = Closed ReadTimeout (t + pong_wait)).
-      { unfold apply_ev. rewrite Ea. exact Ea. }
+      assert (Hc1 : status (step c (EPing, np)) = Closed ReadTimeout (t + pong_wait)).
+      { rewrite Hst. unfold apply_ev. rewrite Ea. exact Ea. }
       rewrite (Hstay _ _ Hc1).
-      split; [rewrite apply_ev_fire, advance_fire; exact Hfc|].
+      split; [rewrite step_fire; exact Hfc|].
       split; [|right; exact Hc1].
-      unfold apply_ev. rewrite Ea. rewrite advance_deadline. exact Hdc. }
+      rewrite Hst. unfold apply_ev. rewrite Ea. rewrite advance_deadline. exact Hdc. }
   destruct (Hgen k (t + ping_period) (start t f) eq_refl eq_refl eq_refl) as (Hf1 & Hd1 & Hs1); [unfold_consts; lia|].
   set (c1 := fold_left step (pings_only (t + ping_period) k) (start t f)) in *.
-  unfold advance. destruct Hs1 as [Hs1|Hs1]; rewrite Hs1; [|reflexivity].
+  unfold advance. destruct Hs1 as [Hs1|Hs1]; rewrite Hs1; cbv iota; [|exact Hs1].
   destruct ((fire c1 <=? h) && (fire c1 <=? deadline c1)) eqn:E1.
   - apply andb_true_iff in E1. lia.
   - replace (deadline c1 <? h) with true by lia. cbn [status]. rewrite Hd1. reflexivity.
